@@ -67,6 +67,8 @@ def gen_export(rng):
             acts.append(dict(base, kind=kind, action=rng.choice([kind, kind.title(), kind.lower()]) if rng.random() < 0.3 else kind.title(),
                              sym=sym, qty=gen.dec_str(Fraction(q) * sign, 6), price=price, comm=gen.dec_str(-Fraction(comm), 6),
                              gross=gen.dec_str(gross, 12), net=gen.dec_str(net, 12)))
+            if rng.random() < 0.08:
+                acts.append(dict(acts[-1]))      # an order filled in two lots that agree in every cell: two activities, two rows
         elif kind == "FXT":
             usd = Fraction(money(rng, 1, 5000, 2)) * rng.choice([1, -1])
             rate = Fraction(money(rng, 1, 2, 4))
